@@ -1,4 +1,4 @@
-import RpycModel.Async.Model
+import RpycModel.Async.Multi
 import Driver.Text
 /-
 drv_async ops (not verified; exercised on every line):
@@ -22,6 +22,7 @@ inductive AOp where
   | sync (τ : Option Int)
   | timed (τ : Option Int)
   | areq (τ : Option Int)
+  | sendReply (d : Nat) (next : Bool) (e : Bool) (v : Nat)
   | mkTimed (τ : Option Int)
   | callTimed
   | dropRef
@@ -36,11 +37,29 @@ def parseBoolC : Char → Option Bool
   | 'F' => some false
   | _ => none
 
-def parseMsg : List Char → Option Msg
-  | 'R' :: b :: cs => match parseBoolC b, parseNatChars cs with
-    | some e, some v => some (.reply e v)
+/-- what `S<delay>:` carries: `O<dur>` unrelated request · `R<T|F><v>` the reply to the request issued last ·
+`N<T|F><v>` the reply to the request that will be issued next · (multi) `R<k>:<T|F><v>` the reply to request k -/
+inductive MsgTok where
+  | other (d : Nat)
+  | reply (next : Bool) (e : Bool) (v : Nat)
+  | replyTo (k : Nat) (e : Bool) (v : Nat)
+
+def parseMsgTok : List Char → Option MsgTok
+  | 'O' :: cs => (parseNatChars cs).map MsgTok.other
+  | 'N' :: b :: cs => match parseBoolC b, parseNatChars cs with
+    | some e, some v => some (.reply true e v)
     | _, _ => none
-  | 'O' :: cs => (parseNatChars cs).map Msg.other
+  | 'R' :: cs =>
+    match cs.span (· ≠ ':') with
+    | (k, _ :: b :: vs) => match parseNatChars k, parseBoolC b, parseNatChars vs with
+      | some k, some e, some v => some (.replyTo k e v)
+      | _, _, _ => none
+    | (_, []) => match cs with
+      | b :: vs => match parseBoolC b, parseNatChars vs with
+        | some e, some v => some (.reply false e v)
+        | _, _ => none
+      | [] => none
+    | _ => none
   | _ => none
 
 def parseAOp (tok : String) : Option AOp :=
@@ -56,11 +75,13 @@ def parseAOp (tok : String) : Option AOp :=
     | some e, some v => some (.ev (.arrive e v))
     | _, _ => none
   | 'S' :: cs => match cs.span (· ≠ ':') with
-    | (d, _ :: m) => match parseNatChars d, parseMsg m with
-      | some d, some m => some (.ev (.send d m))
+    | (d, _ :: m) => match parseNatChars d, parseMsgTok m with
+      | some d, some (.other k) => some (.ev (.send d (.other k)))
+      | some d, some (.reply nx e v) => some (.sendReply d nx e v)
       | _, _ => none
     | _ => none
   | ['V'] => some (.ev .serve1)
+  | 'U' :: cs => (parseTau cs).map (fun t => .ev (.serveT t))
   | 'C' :: cs => (parseNatChars cs).map (fun c => .ev (.addCallback c))
   | ['r'] => some (.ev .qReady)
   | ['e'] => some (.ev .qError)
@@ -105,6 +126,8 @@ def showWorld (w : World) : String :=
 /-- the wrapper made by the last `W` token travels next to the world; `K` without one is rejected -/
 def applyAOp (w : World) (tw : Option Timed) : AOp → Option (World × Option Timed × Obs)
   | .ev e => some ((step w e).1, tw, (step w e).2)
+  | .sendReply d nx e v =>
+    some ((step w (.send d (.reply (if nx then w.seq + 1 else w.seq) e v))).1, tw, .unit)
   | .sync τ => some ((syncRequest w τ).1, tw, (syncRequest w τ).2)
   | .timed τ => some (timedCall w τ, tw, .unit)
   | .areq τ => some (asyncRequest w τ, tw, .unit)
@@ -121,7 +144,76 @@ def runAOps : World → Option Timed → List AOp → List String → Option (Wo
     | some (w', tw', obs) => runAOps w' tw' os ((showObs obs ++ "@" ++ toString w'.now) :: acc)
     | none => none
 
+/-! #### several requests: `async multi <t0> <tok>*`
+`Q<τ>` new request · `<k>.<tok>` an event of request k (tok: X<τ> C<c> r e x v w A<T|F><v>) · `T<d>` `V` `U<τ>`
+`S<d>:O<dur>` `S<d>:R<k>:<T|F><v>` environment events.  Output: one `<obs>@<now>` per token, then one state per
+request. -/
+
+def parseMTok (tok : String) : Option MEv :=
+  match tok.toList with
+  | 'Q' :: cs => (parseTau cs).map MEv.request
+  | 'T' :: cs => (parseNatChars cs).map (fun d => .env (.tick d))
+  | ['V'] => some (.env .serve1)
+  | 'U' :: cs => (parseTau cs).map (fun t => .env (.serveT t))
+  | 'S' :: cs => match cs.span (· ≠ ':') with
+    | (d, _ :: m) => match parseNatChars d, parseMsgTok m with
+      | some d, some (.other k) => some (.env (.send d (.other k)))
+      | some d, some (.replyTo k e v) => some (.env (.send d (.reply (k + 1) e v)))
+      | _, _ => none
+    | _ => none
+  | cs =>
+    match cs.span (· ≠ '.') with
+    | (k, _ :: rest) =>
+      match parseNatChars k, parseAOp (String.ofList rest) with
+      | some k, some (.ev e) =>
+        match e with
+        | .setExpiry _ | .addCallback _ | .qReady | .qError | .qExpired | .qValue | .wait | .arrive _ _ => some (.on k e)
+        | _ => none
+      | _, _ => none
+    | _ => none
+
+def runMEvs : MWorld → List MEv → List String → MWorld × List String
+  | mw, [], acc => (mw, acc.reverse)
+  | mw, e :: es, acc =>
+    let r := mstep mw e
+    runMEvs r.1 es ((showObs r.2 ++ "@" ++ toString r.1.env.now) :: acc)
+
+/-! #### `__call__` with raising / re-entrant callbacks: `async call <T|F expired> <now> <T|F isExc> <v> <cb>*`,
+cb = `c<id>` returns · `c<id>!` raises · `c<id>+<a>,<b>` registers a, b from inside · `c<id>!+<a>` both -/
+
+def parseCb (tok : String) : Option Cb :=
+  match tok.toList with
+  | 'c' :: cs =>
+    let (body, adds) := match cs.span (· ≠ '+') with
+      | (b, _ :: a) => (b, some a)
+      | (b, []) => (b, none)
+    let (idc, raises) := match body.reverse with
+      | '!' :: r => (r.reverse, true)
+      | _ => (body, false)
+    match parseNatChars idc, (match adds with | none => some [] | some a => (splitComma a).mapM parseNatChars) with
+    | some i, some a => some ⟨i, raises, a⟩
+    | _, _ => none
+  | _ => none
+
+def showCallOut (o : CallOut) : String :=
+  "st " ++ (if o.isReady then "T" else "F") ++ " " ++ showTri o.isExc ++ " " ++ showOptNat o.obj
+    ++ " cb[" ++ ",".intercalate (o.stored.map toString) ++ "]"
+    ++ " log" ++ showPairs o.log ++ " raised" ++ (if o.raised then "T" else "F")
+
 def asyncOp : List String → String
+  | "multi" :: t0 :: toks =>
+    match parseNatChars t0.toList, toks.mapM parseMTok with
+    | some t0, some evs =>
+      let r := runMEvs (MWorld.init t0) evs []
+      " ".intercalate (r.2 ++ r.1.views.map (fun v => "| " ++ showWorld v))
+    | _, _ => "bad-op"
+  | "call" :: ex :: now :: e :: v :: cbs =>
+    match ex.toList, parseNatChars now.toList, e.toList, parseNatChars v.toList, cbs.mapM parseCb with
+    | [x], some now, [b], some v, some cbs =>
+      match parseBoolC x, parseBoolC b with
+      | some x, some b => showCallOut (callR x now cbs b v)
+      | _, _ => "bad-op"
+    | _, _, _, _, _ => "bad-op"
   | "run" :: t0 :: toks =>
     match parseNatChars t0.toList, toks.mapM parseAOp with
     | some t0, some ops =>
